@@ -437,9 +437,10 @@ func (s *Server) Reset(reason string, timeoutMs int64) (*statejson.ResetDescript
 		}
 	}()
 
+	// The reset goroutine has released the reservation (Clear) before it reported completion; releasing
+	// again here would drop whatever reservation has been made since by the next invoke
 	done := <-s.ResetDoneChan
 	verifAt("server.resetBeforeRelease")
-	s.Release()
 
 	if done.ErrorType != "" {
 		return nil, errors.New(string(done.ErrorType))
